@@ -66,6 +66,8 @@ pub enum Op {
     BulkDormant(u64),
     /// macro letter: k same-price quantity amendments (to 1) of one order (many stale tickets)
     Churn(u64, u64),
+    /// macro letter: n quotes - an order added under id 500 and cancelled again, n times (n stale tickets, nothing resting)
+    Quotes(u64),
 }
 
 /// a dormant order (nothing displayed, nothing it could replenish with: iceberg 0 / 2) for the macro letter
@@ -147,6 +149,7 @@ impl LevelCfg {
             Op::BulkCancel(k) => format!("cancel #100..#{}", 99 + k),
             Op::BulkDormant(n) => format!("add {n} dormant orders IC(0,2) as #300..#{}", 299 + n),
             Op::Churn(id, k) => format!("{k} x update_quantity #{id} -> 1"),
+            Op::Quotes(n) => format!("{n} x (add S(2) as #500; cancel #500)"),
         }
     }
 
@@ -319,7 +322,7 @@ impl ImplRes {
             ImplRes::Updated(u) => u.describe(),
             ImplRes::Restored => "restored".into(),
             ImplRes::Count(n) => format!("{n} sub-operations succeeded"),
-            ImplRes::NoReturn => format!("call did not return within {CALL_BUDGET} steps"),
+            ImplRes::NoReturn => "call did not return within its step budget (5000 + 4 x queued tickets + 40 x resting orders)".to_string(),
             ImplRes::Panicked(m) => format!("panicked: {m}"),
             ImplRes::RestoreFailed(m) => format!("restore failed: {m}"),
         }
@@ -395,13 +398,22 @@ impl<'a> Run<'a> {
             .collect()
     }
 
+    /// step budget of one call: generous for what a legitimate call needs in this state (every queued ticket may
+    /// have to be popped, every resting order visited), still finite
+    pub fn call_budget(&self) -> u64 {
+        let tickets = self.rec.tickets_of(self.queue_obj).len() as u64;
+        let orders = self.level.order_count() as u64;
+        CALL_BUDGET + 4 * tickets + 40 * orders.min(1_000_000)
+    }
+
     /// applies `op` to the implementation and to every alive model; returns what each said
     pub fn apply(&mut self, op: &Op) -> (ImplRes, Vec<Option<ImplRes>>) {
         let cfg = self.cfg;
+        let budget = self.call_budget();
         let res = match op {
             Op::Add(id, t) => {
                 let o = cfg.make_order(*id, *t);
-                let r = self.rec.with_budget(CALL_BUDGET, || {
+                let r = self.rec.with_budget(budget, || {
                     self.level.add_order(o);
                 });
                 match r {
@@ -414,7 +426,7 @@ impl<'a> Run<'a> {
                 }
             }
             Op::Match(q) => {
-                let r = self.rec.with_budget(CALL_BUDGET, || {
+                let r = self.rec.with_budget(budget, || {
                     self.level.match_order(*q, oid(TAKER), &self.generator)
                 });
                 match r {
@@ -433,7 +445,7 @@ impl<'a> Run<'a> {
                 let u = cfg.update_of(*k, *id);
                 let r = self
                     .rec
-                    .with_budget(CALL_BUDGET, || self.level.update_order(u));
+                    .with_budget(budget, || self.level.update_order(u));
                 match r {
                     Ok(ur) => {
                         let obs = upd_obs(&ur);
@@ -455,7 +467,7 @@ impl<'a> Run<'a> {
             }
             Op::BulkAdd(n) => {
                 let price = cfg.price;
-                let r = self.rec.with_budget(CALL_BUDGET * 10, || {
+                let r = self.rec.with_budget(budget * 10, || {
                     for i in 0..*n {
                         self.level.add_order(bulk_order(i, price));
                     }
@@ -471,7 +483,7 @@ impl<'a> Run<'a> {
             }
             Op::BulkDormant(n) => {
                 let price = cfg.price;
-                let r = self.rec.with_budget(CALL_BUDGET * 10, || {
+                let r = self.rec.with_budget(budget * 10, || {
                     for i in 0..*n {
                         self.level.add_order(dormant_order(i, price));
                     }
@@ -486,7 +498,7 @@ impl<'a> Run<'a> {
                 }
             }
             Op::BulkCancel(k) => {
-                let r = self.rec.with_budget(CALL_BUDGET * 10, || {
+                let r = self.rec.with_budget(budget * 10, || {
                     let mut ok = 0u64;
                     for i in 0..*k {
                         if let Ok(Some(_)) = self.level.update_order(OrderUpdate::Cancel { order_id: oid(100 + i) }) {
@@ -504,8 +516,30 @@ impl<'a> Run<'a> {
                     Err(BudgetOrPanic::Panic(m)) => ImplRes::Panicked(m),
                 }
             }
+            Op::Quotes(n) => {
+                let price = cfg.price;
+                let r = self.rec.with_budget(budget * 40, || {
+                    let mut ok = 0u64;
+                    for _ in 0..*n {
+                        self.level.add_order(set_id_ts(&bulk_order(0, price), oid(500), 5000));
+                        if let Ok(Some(_)) = self.level.update_order(OrderUpdate::Cancel { order_id: oid(500) }) {
+                            ok += 1;
+                        }
+                    }
+                    ok
+                });
+                match r {
+                    Ok(ok) => {
+                        self.n_added += *n;
+                        self.n_removed += ok;
+                        ImplRes::Count(ok)
+                    }
+                    Err(BudgetOrPanic::Budget) => ImplRes::NoReturn,
+                    Err(BudgetOrPanic::Panic(m)) => ImplRes::Panicked(m),
+                }
+            }
             Op::Churn(id, k) => {
-                let r = self.rec.with_budget(CALL_BUDGET * 10, || {
+                let r = self.rec.with_budget(budget * 40, || {
                     let mut ok = 0u64;
                     for _ in 0..*k {
                         if let Ok(Some(_)) = self.level.update_order(OrderUpdate::UpdateQuantity { order_id: oid(*id), new_quantity: 1 }) {
@@ -523,7 +557,7 @@ impl<'a> Run<'a> {
             Op::Restore(p) => {
                 let r = self
                     .rec
-                    .with_budget(CALL_BUDGET * 10, || rebuild_via(&self.level, *p));
+                    .with_budget(budget * 10, || rebuild_via(&self.level, *p));
                 match r {
                     Ok(Ok(l)) => {
                         self.level = l;
@@ -573,6 +607,16 @@ impl<'a> Run<'a> {
                     }
                     ImplRes::Count(ok)
                 }
+                Op::Quotes(n) => {
+                    let mut ok = 0;
+                    for _ in 0..*n {
+                        m.add(set_id_ts(&bulk_order(0, cfg.price), oid(500), 5000));
+                        if let UpdObs::Order(_) = m.update(&OrderUpdate::Cancel { order_id: oid(500) }) {
+                            ok += 1;
+                        }
+                    }
+                    ImplRes::Count(ok)
+                }
                 Op::Churn(id, k) => {
                     let mut ok = 0;
                     for _ in 0..*k {
@@ -596,7 +640,8 @@ impl<'a> Run<'a> {
     }
 
     pub fn drain(&mut self) -> ImplRes {
-        let r = self.rec.with_budget(CALL_BUDGET, || {
+        let budget = self.call_budget();
+        let r = self.rec.with_budget(budget, || {
             self.level
                 .match_order(DRAIN_QTY, oid(TAKER + 1), &self.generator)
         });
@@ -1057,7 +1102,7 @@ impl Subject for LevelSubject {
         }
 
         // --- model agreement
-        let is_upd = matches!(op, Op::Upd(..) | Op::BulkCancel(_) | Op::Churn(..));
+        let is_upd = matches!(op, Op::Upd(..) | Op::BulkCancel(_) | Op::Churn(..) | Op::Quotes(_));
         let mut new_alive = 0u8;
         let mut disagreements: Vec<String> = vec![];
         for (i, v) in cfg.variants.iter().enumerate() {
